@@ -129,6 +129,7 @@ Theorem C09_synsets_have_matching_form :
                In f (t_forms d) /\
                In _s (t_senses d) /\
                se_entry_rowid _s = fm_entry_rowid f /\
+               (wn_lexicon_ids w = [] \/ In (se_lexicon_rowid _s) (wn_lexicon_ids w)) /\
                find_by sy_rowid (se_synset_rowid _s) (t_synsets d) = Some ss /\
                matched w
                  (pass w mk_Synset (synsets_query d w ili) (fun f0 : str => f0)
@@ -180,6 +181,7 @@ Theorem C09_synsets_complete :
          in_selection w (sy_lexicon_rowid ss) ->
          pos_allows pos (sy_pos ss) ->
          In _s (t_senses d) ->
+         in_selection w (se_lexicon_rowid _s) ->
          find_by sy_rowid (se_synset_rowid _s) (t_synsets d) = Some ss ->
          In f (t_forms d) ->
          fm_entry_rowid f = se_entry_rowid _s ->
@@ -242,6 +244,7 @@ Theorem C09_find_synsets_iff :
                In f (matching_forms d forms norm saf) /\
                In _s (t_senses d) /\
                se_entry_rowid _s = fm_entry_rowid f /\
+               (if nonempty ids then z_in (se_lexicon_rowid _s) ids else true) = true /\
                find_by sy_rowid (se_synset_rowid _s) (t_synsets d) = Some ss)).
 Proof. exact (@find_synsets_iff). Qed.
 Print Assumptions C09_find_synsets_iff.
